@@ -135,8 +135,57 @@ def run_case(case: dict[str, Any]) -> dict[str, Any]:
             'execs': 1 + len(policies(cfg.W, seed))}
 
 
+def lone_sender(case: dict) -> list[tuple[str, dict]]:
+    """A gradient worker that has NOTHING else to wait for inside step():
+    one registered bias-free layer (the others skipped), no clipping, factor
+    allreduce unbucketed in the hooks, ranks not synchronised by the driver,
+    gradient tensors kept between iterations (zero_grad(set_to_none=False)
+    writes in place).  step() must not return on the sender while its
+    gradient broadcast is still in flight."""
+    cfg = kaisa.Config(**case['cfg'])
+    hist = [['train', 1], ['step']] * 3
+    out = []
+    for pol in (simdist.LazyCompletion(case['seed']),
+                simdist.RandomPolicy(case['seed'], 0.5),
+                simdist.EagerCompletion()):
+        res = kaisa.run(cfg, hist, pol, seed=case['seed'])
+        if any(res.errors):
+            out.append((f'lone sender: {[e for e in res.errors if e][0]}'[:300],
+                        {'kind': 'lone', 'sub': 'raise'}))
+            break
+        for m in res.monitors:
+            if m['kind'] == 'inflight_write':
+                out.append((f'buffer modified while in flight: {m} '
+                            f'[{pol.name}]',
+                            {'kind': 'inflight', 'op': m.get('op')}))
+                break
+        for what, sig in analyze.comm_issues(res):
+            out.append((what, dict(sig, kind='comm')))
+        # (no cross-rank comparison here: without the driver's averaging the
+        # gradient workers of different columns precondition different local
+        # gradients -- C02 presupposes averaged gradients)
+        if out:
+            break
+    return out
+
+
 def main(tier: str, seed: int) -> int:
     v = Verdict(PROP, tier, seed, 'model_checking')
+    lone = []
+    for i, (W, k, model, skip) in enumerate(
+            [(2, 1, 'mixb', ['2', '4']), (2, 1, 'mlp2nb', ['0']),
+             (4, 2, 'mixb', ['2', '4']), (4, 1, 'mlp2nb', ['0'])]):
+        for method, prediv in (('eigen', True), ('inverse', False)):
+            lone.append({'cfg': dict(W=W, k=k, method=method, prediv=prediv,
+                                     kl_clip=None, model=model,
+                                     skip_layers=skip, keep_grads=True,
+                                     bucket_cap_mb=0.0, in_hook=True,
+                                     ddp=False, F=1, I=1 + i % 2),
+                         'seed': seed + i})
+    for c, lst in zip(lone, pmap(lone_sender, lone)):
+        for what, sig in lst:
+            v.violation(f'{what} :: {json.dumps(c["cfg"])}', sig,
+                        replay={'lone': c})
     worlds = [1, 2, 4] if tier == 'quick' else [1, 2, 3, 4, 6, 8]
     r, tuples = config_lattice.enumerate_configs(
         worlds, ['neg', 'zero', 'tiny', 'big'])
@@ -231,6 +280,10 @@ def replay(path: str) -> int:
         msg = config_lattice.check_constructor(rp['tuple'])
         print(msg)
         return 1 if msg else 0
+    if 'lone' in rp:
+        r = lone_sender(rp['lone'])
+        print(r)
+        return 1 if r else 0
     out = run_case(rp['case'])
     print(out['issues'])
     return 1 if out['issues'] else 0
